@@ -262,6 +262,46 @@ impl From<&Value> for Value {
     }
 }
 
+/// Compares an int with a double by the numbers they denote. Converting the
+/// int to a double first would lose precision above 2^53.
+fn cmp_int_float(a: i64, b: f64) -> Option<Ordering> {
+    if b.is_nan() {
+        return None;
+    }
+    // 2^63 and -2^63 are exactly representable as doubles.
+    if b >= 9223372036854775808.0 {
+        return Some(Ordering::Less);
+    }
+    if b < -9223372036854775808.0 {
+        return Some(Ordering::Greater);
+    }
+    let truncated = b.trunc();
+    match a.cmp(&(truncated as i64)) {
+        // Same integral part, the fractional part of `b` decides.
+        Ordering::Equal => 0.0.partial_cmp(&(b - truncated)),
+        ordering => Some(ordering),
+    }
+}
+
+/// Compares a uint with a double by the numbers they denote.
+fn cmp_uint_float(a: u64, b: f64) -> Option<Ordering> {
+    if b.is_nan() {
+        return None;
+    }
+    // 2^64 is exactly representable as a double.
+    if b >= 18446744073709551616.0 {
+        return Some(Ordering::Less);
+    }
+    if b < 0.0 {
+        return Some(Ordering::Greater);
+    }
+    let truncated = b.trunc();
+    match a.cmp(&(truncated as u64)) {
+        Ordering::Equal => 0.0.partial_cmp(&(b - truncated)),
+        ordering => Some(ordering),
+    }
+}
+
 impl PartialEq for Value {
     fn eq(&self, other: &Self) -> bool {
         match (self, other) {
@@ -285,15 +325,15 @@ impl PartialEq for Value {
                 .try_into()
                 .map(|a: u64| a == *b)
                 .unwrap_or(false),
-            (Value::Int(a), Value::Float(b)) => (*a as f64) == *b,
+            (Value::Int(a), Value::Float(b)) => cmp_int_float(*a, *b) == Some(Ordering::Equal),
             (Value::UInt(a), Value::Int(b)) => a
                 .to_owned()
                 .try_into()
                 .map(|a: i64| a == *b)
                 .unwrap_or(false),
-            (Value::UInt(a), Value::Float(b)) => (*a as f64) == *b,
-            (Value::Float(a), Value::Int(b)) => *a == (*b as f64),
-            (Value::Float(a), Value::UInt(b)) => *a == (*b as f64),
+            (Value::UInt(a), Value::Float(b)) => cmp_uint_float(*a, *b) == Some(Ordering::Equal),
+            (Value::Float(a), Value::Int(b)) => cmp_int_float(*b, *a) == Some(Ordering::Equal),
+            (Value::Float(a), Value::UInt(b)) => cmp_uint_float(*b, *a) == Some(Ordering::Equal),
             (_, _) => false,
         }
     }
@@ -322,7 +362,7 @@ impl PartialOrd for Value {
                     // If the i64 doesn't fit into a u64 it must be less than 0.
                     .unwrap_or(Ordering::Less),
             ),
-            (Value::Int(a), Value::Float(b)) => (*a as f64).partial_cmp(b),
+            (Value::Int(a), Value::Float(b)) => cmp_int_float(*a, *b),
             (Value::UInt(a), Value::Int(b)) => Some(
                 a.to_owned()
                     .try_into()
@@ -330,9 +370,9 @@ impl PartialOrd for Value {
                     // If the u64 doesn't fit into a i64 it must be greater than i64::MAX.
                     .unwrap_or(Ordering::Greater),
             ),
-            (Value::UInt(a), Value::Float(b)) => (*a as f64).partial_cmp(b),
-            (Value::Float(a), Value::Int(b)) => a.partial_cmp(&(*b as f64)),
-            (Value::Float(a), Value::UInt(b)) => a.partial_cmp(&(*b as f64)),
+            (Value::UInt(a), Value::Float(b)) => cmp_uint_float(*a, *b),
+            (Value::Float(a), Value::Int(b)) => cmp_int_float(*b, *a).map(Ordering::reverse),
+            (Value::Float(a), Value::UInt(b)) => cmp_uint_float(*b, *a).map(Ordering::reverse),
             _ => None,
         }
     }
